@@ -120,12 +120,12 @@ Definition fm_get_int_or_zero (m : fmap) (t : Z) : res Z :=
   end.
 
 (* func (m *FieldMap) getOrCreate(tag) field followed by initField(f, tag, value) = SetBytes.
-   When the tag exists getOrCreate returns f[:1], an alias of the stored slice: initField overwrites element 0 in
-   place and the stored slice keeps its following elements (a repeating group keeps its members).
+   When the tag exists getOrCreate truncates the stored slice to its first element (f = f[:1]; m.tagLookup[tag] = f)
+   and initField overwrites that element: a repeating group stored under the tag loses its members.
    When it does not exist a one-element field is stored and the tag appended to `tags`. *)
 Definition fm_set_bytes (m : fmap) (t : Z) (value : bytes) : fmap :=
   match lk_get (fm_lookup m) t with
-  | Some f => mk_fmap (fm_tags m) (lk_put (fm_lookup m) t (tv_init t value, snd f)) (fm_ord m)
+  | Some f => mk_fmap (fm_tags m) (lk_put (fm_lookup m) t (tv_init t value, [])) (fm_ord m)
   | None => mk_fmap (fm_tags m ++ [t]) (lk_put (fm_lookup m) t (tv_init t value, [])) (fm_ord m)
   end.
 (* SetField / Set / SetString go through SetBytes with the writer's bytes; SetInt: FIXInt.Write; SetBool: Y/N *)
